@@ -271,9 +271,73 @@ impl<'a> Ctx<'a> {
         Card::call_function(sig.call_name, args)
     }
 
+    /// closures built to stress the capture mechanism: several outer variables captured in an
+    /// arbitrary order (open-upvalue list insertion in the middle), written through the closure,
+    /// and two-level nesting where the inner closure names a variable of the parent and one of
+    /// the grandparent in either order; the result is called on the spot
+    fn capture_pattern(&mut self) -> Option<Card> {
+        let mut nv = self.num_vars();
+        nv.sort();
+        nv.dedup();
+        if nv.len() < 2 {
+            return None;
+        }
+        // a random permutation of up to four of them
+        let mut pick: Vec<String> = vec![];
+        while pick.len() < nv.len().min(4) {
+            let c = self.rng.pick(&nv).clone();
+            if !pick.contains(&c) {
+                pick.push(c);
+            }
+        }
+        let weighted = |names: &[String]| -> Card {
+            let mut e = int(0);
+            for n in names {
+                e = bin(CardBody::Add, bin(CardBody::Mul, e, int(10)), read(n));
+            }
+            e
+        };
+        Some(match self.rng.below(3) {
+            0 => {
+                // read in permuted order
+                let f = c(CardBody::Closure(Box::new(Function { arguments: vec![], cards: vec![Card::return_card(weighted(&pick))] })));
+                Card::dynamic_call(f, vec![])
+            }
+            1 => {
+                // write one of them through the closure, then read all
+                let w = pick[pick.len() / 2].clone();
+                let f = c(CardBody::Closure(Box::new(Function {
+                    arguments: vec![],
+                    cards: vec![Card::set_var(w.clone(), bin(CardBody::Add, read(&w), int(1))), Card::return_card(weighted(&pick))],
+                })));
+                Card::dynamic_call(f, vec![])
+            }
+            _ => {
+                // parent declares its own local; the inner closure names it and grandparent
+                // variables, in either order
+                let y = self.fresh_name("x");
+                let mut names = vec![pick[0].clone(), y.clone()];
+                if pick.len() > 1 && self.rng.chance(1, 2) {
+                    names.push(pick[1].clone());
+                }
+                if self.rng.chance(1, 2) {
+                    names.reverse();
+                }
+                let inner = c(CardBody::Closure(Box::new(Function { arguments: vec![], cards: vec![Card::return_card(weighted(&names))] })));
+                let outer = c(CardBody::Closure(Box::new(Function { arguments: vec![], cards: vec![Card::set_var(y, int(7)), Card::return_card(inner)] })));
+                Card::dynamic_call(Card::dynamic_call(outer, vec![]), vec![])
+            }
+        })
+    }
+
     fn closure(&mut self, d: usize) -> Card {
         if self.in_closure >= 2 {
             return self.atom();
+        }
+        if self.in_closure == 0 && self.rng.chance(1, 3) {
+            if let Some(c) = self.capture_pattern() {
+                return c;
+            }
         }
         let arity = self.rng.range(0, 2) as usize;
         let args: Vec<String> = (0..arity).map(|_| self.fresh_name("a")).collect();
@@ -583,6 +647,45 @@ pub fn gen_program(rng: &mut Rng, opts: &GenOpts) -> Module {
             subsub.push(("t".to_string(), Module { submodules: vec![], functions: vec![f], imports: vec![] }));
         }
         submodules.push(("s".to_string(), Module { submodules: subsub, functions: sfs, imports: sub_imports }));
+    }
+    let mut functions = functions;
+    if rng.chance(1, 3) {
+        // a closure factory: k locals captured in a random order (and one of them written), the
+        // closure is returned and called after the factory's frame is gone, from a deeper stack
+        let k = rng.range(3, 5) as usize;
+        let names: Vec<String> = (0..k).map(|i| format!("cv{i}")).collect();
+        let mut order: Vec<usize> = vec![];
+        while order.len() < k {
+            let c = rng.below(k as u64) as usize;
+            if !order.contains(&c) {
+                order.push(c);
+            }
+        }
+        let mut e = int(0);
+        for &i in &order {
+            e = bin(CardBody::Add, bin(CardBody::Mul, e, int(10)), read(&names[i]));
+        }
+        let mut body = vec![];
+        if rng.chance(1, 2) {
+            let w = &names[order[k / 2]];
+            body.push(Card::set_var(w.clone(), bin(CardBody::Add, read(w), int(1))));
+        }
+        body.push(Card::return_card(e));
+        let mut cards: Vec<Card> = names.iter().enumerate().map(|(i, n)| Card::set_var(n.clone(), int(i as i64 + 1))).collect();
+        cards.push(Card::return_card(c(CardBody::Closure(Box::new(Function { arguments: vec![], cards: body })))));
+        functions.push(("mkclosure".to_string(), Function { arguments: vec![], cards }));
+        if let Some((_, main)) = functions.iter_mut().find(|(n, _)| n == "main") {
+            let at = main.cards.len().min(5);
+            let extra = vec![
+                Card::set_var("fc0_9", Card::call_function("mkclosure", vec![])),
+                Card::set_var("xpad", int(40)),
+                Card::set_global_var("outc1", bin(CardBody::Add, int(1), Card::dynamic_call(read(&"fc0_9".to_string()), vec![]))),
+                Card::set_global_var("outc2", Card::dynamic_call(read(&"fc0_9".to_string()), vec![])),
+            ];
+            for (j, cd) in extra.into_iter().enumerate() {
+                main.cards.insert(at + j, cd);
+            }
+        }
     }
     Module { submodules, functions, imports: root_imports }
 }
